@@ -122,6 +122,24 @@ Qed.
 Lemma ptr_offs_cons f fs : ptr_offs (f :: fs) = ptr_offs [f] ++ ptr_offs fs.
 Proof. unfold ptr_offs. cbn [flat_map]. now rewrite app_nil_r. Qed.
 
+Lemma ptr_offs_retag v : forall fs, ptr_offs (retag v fs) = ptr_offs fs.
+Proof.
+  unfold ptr_offs, retag. induction fs as [|f fs IH]; [reflexivity|]. cbn [map flat_map]. rewrite IH.
+  destruct f as [a u s [[o l]|]| |]; reflexivity.
+Qed.
+Lemma ptr_offs_set_var v f : ptr_offs [set_var v f] = ptr_offs [f].
+Proof. exact (ptr_offs_retag v [f]). Qed.
+Lemma view_retag v : forall fs, map view_frame (retag v fs) = retag v (map view_frame fs).
+Proof. unfold retag. induction fs as [|f fs IH]; [reflexivity|]. cbn [map]. rewrite IH. destruct f; reflexivity. Qed.
+Lemma processed_retag v : forall fs, processed (retag v fs) = processed fs.
+Proof. unfold retag. induction fs as [|f fs IH]; [reflexivity|]. cbn [map]. destruct f; cbn [set_var processed]; congruence. Qed.
+Lemma retag_firstn v k fs : firstn k (retag v fs) = retag v (firstn k fs).
+Proof. unfold retag. apply firstn_map. Qed.
+Lemma retag_app v a b : retag v (a ++ b) = retag v a ++ retag v b.
+Proof. unfold retag. apply map_app. Qed.
+Lemma out_cfg_size g v : g_size (out_cfg g v) = g_size g.
+Proof. reflexivity. Qed.
+
 Lemma perm_drop_mid (x : N) a b c : Permutation (x :: a) (b ++ x :: c) -> Permutation a (b ++ c).
 Proof. intro P. eapply Permutation_cons_app_inv. exact P. Qed.
 
@@ -209,25 +227,27 @@ Proof.
           else
             let n := sc_n (c_script c) in
             let ft := ship g engaged true n (Z.of_N n * c_x c)%Z (lookup_sz n (g_szb g)) t' in
-            {| a_resp := [[fst ft]]; a_tab := snd ft; a_own := own'; a_alive := true; a_bad := false |}
+            {| a_resp := [[set_var blob_schema (fst ft)]]; a_tab := snd ft; a_own := own'; a_alive := true; a_bad := false |}
       | MProd | MExch =>
           if sc_fail (c_script c) then err exc_value_error
           else
             let exchange := match c_method c with MExch => true | _ => false end in
-            let r := lockstep (v_input_refuse v) g exchange engaged (sc_turns (c_script c)) items {| l_tab := t'; l_own := own' |} in
-            {| a_resp := [fst (fst r)]; a_tab := l_tab (snd (fst r)); a_own := l_own (snd (fst r)); a_alive := true; a_bad := snd r |}
+            let r := lockstep (v_input_refuse v) (out_cfg g (sc_var (c_script c))) exchange engaged (sc_turns (c_script c)) items {| l_tab := t'; l_own := own' |} in
+            {| a_resp := [retag (sc_var (c_script c)) (fst (fst r))]; a_tab := l_tab (snd (fst r)); a_own := l_own (snd (fst r)); a_alive := true; a_bad := snd r |}
       end) in
     Permutation (offs (a_tab ans)) (ptr_offs (concat (a_resp ans)) ++ X ++ a_own ans)).
   { intros t' own' P' O' engaged. cbv zeta.
-    assert (L : forall ex, let r := lockstep (v_input_refuse v) g ex engaged (sc_turns (c_script c)) items {| l_tab := t'; l_own := own' |} in
-              Permutation (offs (l_tab (snd (fst r)))) (ptr_offs (concat [fst (fst r)]) ++ X ++ l_own (snd (fst r)))).
-    { intro ex. cbv zeta. cbn [concat]. rewrite app_nil_r.
-      apply (lockstep_perm (v_input_refuse v) g ex engaged items (sc_turns (c_script c)) {| l_tab := t'; l_own := own' |} X R); assumption. }
+    assert (L : forall ex, let r := lockstep (v_input_refuse v) (out_cfg g (sc_var (c_script c))) ex engaged (sc_turns (c_script c)) items {| l_tab := t'; l_own := own' |} in
+              Permutation (offs (l_tab (snd (fst r)))) (ptr_offs (concat [retag (sc_var (c_script c)) (fst (fst r))]) ++ X ++ l_own (snd (fst r)))).
+    { intro ex. cbv zeta. cbn [concat]. rewrite app_nil_r, ptr_offs_retag.
+      apply (lockstep_perm (v_input_refuse v) (out_cfg g (sc_var (c_script c))) ex engaged items (sc_turns (c_script c)) {| l_tab := t'; l_own := own' |} X R); assumption. }
     destruct (c_method c); cbn [a_tab a_resp a_own]; try exact P'.
-    - destruct (sc_fail (c_script c)); cbn [a_tab a_resp a_own concat app ptr_offs flat_map]; [exact P'|].
+    - destruct (sc_fail (c_script c)); [cbn [a_tab a_resp a_own concat app ptr_offs flat_map]; exact P'|].
+      cbn [a_tab a_resp a_own concat app].
       pose proof (ship_perm g engaged true (sc_n (c_script c)) (Z.of_N (sc_n (c_script c)) * c_x c)%Z
                     (lookup_sz (sc_n (c_script c)) (g_szb g)) t') as S.
-      eapply Permutation_trans; [exact S|]. cbn [ptr_offs flat_map app]. rewrite !app_nil_r.
+      rewrite ptr_offs_set_var.
+      eapply Permutation_trans; [exact S|].
       apply Permutation_app_head. exact P'.
     - destruct (sc_fail (c_script c)); cbn [a_tab a_resp a_own]; [exact P'|]. apply L.
     - destruct (sc_fail (c_script c)); cbn [a_tab a_resp a_own]; [exact P'|]. apply L. }
@@ -314,7 +334,7 @@ Fixpoint plain_frames (ex : bool) (turns : list turn) (items : list (N * Z)) : l
       match t_act t with
       | AErr k => [WExc (err_exc k)]
       | AFinish => if ex then [WExc exc_runtime_error] else []
-      | AEmit => WData (t_rows t) (Z.of_N (t_rows t) * (t_value t + insum))%Z None :: plain_frames ex (tl turns) rest
+      | AEmit => WData 0 (t_rows t) (Z.of_N (t_rows t) * (t_value t + insum))%Z None :: plain_frames ex (tl turns) rest
       end
   end.
 
@@ -325,18 +345,25 @@ Definition plain_answer (c : call) : list (list wframe) :=
   match c_method c with
   | MUnknown => [[WExc ss_exc_unknown_method]]
   | MBlob => if sc_fail (c_script c) then [[WExc exc_value_error]]
-             else [[WData (sc_n (c_script c)) (Z.of_N (sc_n (c_script c)) * c_x c)%Z None]]
+             else [[WData blob_schema (sc_n (c_script c)) (Z.of_N (sc_n (c_script c)) * c_x c)%Z None]]
   | MProd => if sc_fail (c_script c) then [[WExc exc_value_error]]
-             else [plain_frames false (sc_turns (c_script c)) (item_content (c_items c))]
+             else [retag (sc_var (c_script c)) (plain_frames false (sc_turns (c_script c)) (item_content (c_items c)))]
   | MExch => if sc_fail (c_script c) then [[WExc exc_value_error]]
-             else [plain_frames true (sc_turns (c_script c)) (item_content (c_items c))]
+             else [retag (sc_var (c_script c)) (plain_frames true (sc_turns (c_script c)) (item_content (c_items c)))]
   end.
 
-Lemma ship_view g en ne u s z t : view_frame (fst (ship g en ne u s z t)) = WData u s None.
+Lemma ship_view g en ne u s z t : view_frame (fst (ship g en ne u s z t)) = WData 0 u s None.
 Proof.
   unfold ship. destruct (g_size g); [|reflexivity].
   destruct (en && ne && negb (z_buf z <? g_gate g)%Z); [|reflexivity].
   destruct (write_slot n z t) as [[p|] t']; reflexivity.
+Qed.
+
+Lemma ship_data g en ne u s z t : exists p, fst (ship g en ne u s z t) = WData 0 u s p.
+Proof.
+  unfold ship. destruct (g_size g); [|now exists None].
+  destruct (en && ne && negb (z_buf z <? g_gate g)%Z); [|now exists None].
+  destruct (write_slot n z t) as [[p|] t']; [now exists (Some p)|now exists None].
 Qed.
 
 (* the loop met no unresolvable pointer: its frames, pointers resolved, are the plain ones *)
@@ -375,7 +402,7 @@ Proof.
        match t_act t with
        | AErr k => [WExc (err_exc k)]
        | AFinish => if ex then [WExc exc_runtime_error] else []
-       | AEmit => WData (t_rows t) (Z.of_N (t_rows t) * (t_value t + insum))%Z None :: plain_frames ex (tl turns) (content rest)
+       | AEmit => WData 0 (t_rows t) (Z.of_N (t_rows t) * (t_value t + insum))%Z None :: plain_frames ex (tl turns) (content rest)
        end)).
   { intros rows' st1 leak -> H1. cbv zeta in *.
     destruct (t_act (match turns with [] => default_turn ex | t :: _ => t end)).
@@ -437,13 +464,13 @@ Proof.
           else
             let n := sc_n (c_script c) in
             let ft := ship g engaged true n (Z.of_N n * c_x c)%Z (lookup_sz n (g_szb g)) t' in
-            {| a_resp := [[fst ft]]; a_tab := snd ft; a_own := own'; a_alive := true; a_bad := false |}
+            {| a_resp := [[set_var blob_schema (fst ft)]]; a_tab := snd ft; a_own := own'; a_alive := true; a_bad := false |}
       | MProd | MExch =>
           if sc_fail (c_script c) then err exc_value_error
           else
             let exchange := match c_method c with MExch => true | _ => false end in
-            let r := lockstep (v_input_refuse v) g exchange engaged (sc_turns (c_script c)) items {| l_tab := t'; l_own := own' |} in
-            {| a_resp := [fst (fst r)]; a_tab := l_tab (snd (fst r)); a_own := l_own (snd (fst r)); a_alive := true; a_bad := snd r |}
+            let r := lockstep (v_input_refuse v) (out_cfg g (sc_var (c_script c))) exchange engaged (sc_turns (c_script c)) items {| l_tab := t'; l_own := own' |} in
+            {| a_resp := [retag (sc_var (c_script c)) (fst (fst r))]; a_tab := l_tab (snd (fst r)); a_own := l_own (snd (fst r)); a_alive := true; a_bad := snd r |}
       end) = false ->
     view (a_resp (let err ty := {| a_resp := [[WExc ty]]; a_tab := t'; a_own := own'; a_alive := true; a_bad := false |} in
       match c_method c with
@@ -453,29 +480,31 @@ Proof.
           else
             let n := sc_n (c_script c) in
             let ft := ship g engaged true n (Z.of_N n * c_x c)%Z (lookup_sz n (g_szb g)) t' in
-            {| a_resp := [[fst ft]]; a_tab := snd ft; a_own := own'; a_alive := true; a_bad := false |}
+            {| a_resp := [[set_var blob_schema (fst ft)]]; a_tab := snd ft; a_own := own'; a_alive := true; a_bad := false |}
       | MProd | MExch =>
           if sc_fail (c_script c) then err exc_value_error
           else
             let exchange := match c_method c with MExch => true | _ => false end in
-            let r := lockstep (v_input_refuse v) g exchange engaged (sc_turns (c_script c)) items {| l_tab := t'; l_own := own' |} in
-            {| a_resp := [fst (fst r)]; a_tab := l_tab (snd (fst r)); a_own := l_own (snd (fst r)); a_alive := true; a_bad := snd r |}
+            let r := lockstep (v_input_refuse v) (out_cfg g (sc_var (c_script c))) exchange engaged (sc_turns (c_script c)) items {| l_tab := t'; l_own := own' |} in
+            {| a_resp := [retag (sc_var (c_script c)) (fst (fst r))]; a_tab := l_tab (snd (fst r)); a_own := l_own (snd (fst r)); a_alive := true; a_bad := snd r |}
       end))
     = match c_method c with
       | MUnknown => [[WExc ss_exc_unknown_method]]
       | MBlob => if sc_fail (c_script c) then [[WExc exc_value_error]]
-                 else [[WData (sc_n (c_script c)) (Z.of_N (sc_n (c_script c)) * c_x c)%Z None]]
+                 else [[WData blob_schema (sc_n (c_script c)) (Z.of_N (sc_n (c_script c)) * c_x c)%Z None]]
       | MProd => if sc_fail (c_script c) then [[WExc exc_value_error]]
-                 else [plain_frames false (sc_turns (c_script c)) (item_content (c_items c))]
+                 else [retag (sc_var (c_script c)) (plain_frames false (sc_turns (c_script c)) (item_content (c_items c)))]
       | MExch => if sc_fail (c_script c) then [[WExc exc_value_error]]
-                 else [plain_frames true (sc_turns (c_script c)) (item_content (c_items c))]
+                 else [retag (sc_var (c_script c)) (plain_frames true (sc_turns (c_script c)) (item_content (c_items c)))]
       end).
   { intros t' own' engaged H1. cbv zeta in *. destruct (c_method c); cbn [is_stream] in C.
-    - destruct (sc_fail (c_script c)); [reflexivity|]. cbn [a_resp view map]. now rewrite ship_view.
-    - destruct (sc_fail (c_script c)); [reflexivity|]. cbn [a_resp a_bad view map] in *.
-      rewrite (lockstep_view _ g false engaged items _ _ H1). now rewrite (C eq_refl).
-    - destruct (sc_fail (c_script c)); [reflexivity|]. cbn [a_resp a_bad view map] in *.
-      rewrite (lockstep_view _ g true engaged items _ _ H1). now rewrite (C eq_refl).
+    - destruct (sc_fail (c_script c)); [reflexivity|]. cbn [a_resp view map].
+      destruct (ship_data g engaged true (sc_n (c_script c)) (Z.of_N (sc_n (c_script c)) * c_x c)%Z (lookup_sz (sc_n (c_script c)) (g_szb g)) t') as [p SD].
+      rewrite SD. reflexivity.
+    - destruct (sc_fail (c_script c)); [reflexivity|]. cbn [a_resp a_bad] in *. unfold view. cbn [map].
+      rewrite view_retag, (lockstep_view _ _ false engaged items _ _ H1). now rewrite (C eq_refl).
+    - destruct (sc_fail (c_script c)); [reflexivity|]. cbn [a_resp a_bad] in *. unfold view. cbn [map].
+      rewrite view_retag, (lockstep_view _ _ true engaged items _ _ H1). now rewrite (C eq_refl).
     - reflexivity. }
   destruct rs as [|off|]; [destruct sn; apply K; exact H| |].
   - destruct sn; [apply K; exact H|]. cbn [a_bad] in H. discriminate.
@@ -514,7 +543,7 @@ Proof.
   - reflexivity.
 Qed.
 
-Lemma ship_plain g en ne u s z t : g_size g = None -> ship g en ne u s z t = (WData u s None, t).
+Lemma ship_plain g en ne u s z t : g_size g = None -> ship g en ne u s z t = (WData 0 u s None, t).
 Proof. intro E. unfold ship. now rewrite E. Qed.
 
 Lemma lockstep_plain rf g ex en : g_size g = None -> forall its turns st,
@@ -552,31 +581,31 @@ Proof.
           else
             let n := sc_n (c_script c) in
             let ft := ship g (sn && (false || false)) true n (Z.of_N n * c_x c)%Z (lookup_sz n (g_szb g)) (s_tab st) in
-            {| a_resp := [[fst ft]]; a_tab := snd ft; a_own := s_own st; a_alive := true; a_bad := false |}
+            {| a_resp := [[set_var blob_schema (fst ft)]]; a_tab := snd ft; a_own := s_own st; a_alive := true; a_bad := false |}
       | MProd | MExch =>
           if sc_fail (c_script c) then err exc_value_error
           else
             let exchange := match c_method c with MExch => true | _ => false end in
-            let r := lockstep (v_input_refuse v) g exchange (sn && (false || false)) (sc_turns (c_script c))
+            let r := lockstep (v_input_refuse v) (out_cfg g (sc_var (c_script c))) exchange (sn && (false || false)) (sc_turns (c_script c))
                        (if is_stream (c_method c) then map (fun it => (SInline, it_rows it, it_val it)) (c_items c) else [])
                        {| l_tab := s_tab st; l_own := s_own st |} in
-            {| a_resp := [fst (fst r)]; a_tab := l_tab (snd (fst r)); a_own := l_own (snd (fst r)); a_alive := true; a_bad := snd r |}
+            {| a_resp := [retag (sc_var (c_script c)) (fst (fst r))]; a_tab := l_tab (snd (fst r)); a_own := l_own (snd (fst r)); a_alive := true; a_bad := snd r |}
       end) in
     a_resp ans = match c_method c with
       | MUnknown => [[WExc ss_exc_unknown_method]]
       | MBlob => if sc_fail (c_script c) then [[WExc exc_value_error]]
-                 else [[WData (sc_n (c_script c)) (Z.of_N (sc_n (c_script c)) * c_x c)%Z None]]
+                 else [[WData blob_schema (sc_n (c_script c)) (Z.of_N (sc_n (c_script c)) * c_x c)%Z None]]
       | MProd => if sc_fail (c_script c) then [[WExc exc_value_error]]
-                 else [plain_frames false (sc_turns (c_script c)) (item_content (c_items c))]
+                 else [retag (sc_var (c_script c)) (plain_frames false (sc_turns (c_script c)) (item_content (c_items c)))]
       | MExch => if sc_fail (c_script c) then [[WExc exc_value_error]]
-                 else [plain_frames true (sc_turns (c_script c)) (item_content (c_items c))]
+                 else [retag (sc_var (c_script c)) (plain_frames true (sc_turns (c_script c)) (item_content (c_items c)))]
       end /\ a_bad ans = false /\ a_alive ans = true).
   { intro sn. cbv zeta. destruct (c_method c); cbn [is_stream].
     - destruct (sc_fail (c_script c)); [repeat split|]. rewrite (ship_plain g _ _ _ _ _ _ E). repeat split.
     - destruct (sc_fail (c_script c)); [repeat split|]. cbn [a_resp a_bad a_alive].
-      rewrite (lockstep_plain _ g false _ E), lockstep_inline_ok. repeat split.
+      rewrite (lockstep_plain _ (out_cfg g (sc_var (c_script c))) false _ E), lockstep_inline_ok. repeat split.
     - destruct (sc_fail (c_script c)); [repeat split|]. cbn [a_resp a_bad a_alive].
-      rewrite (lockstep_plain _ g true _ E), lockstep_inline_ok. repeat split.
+      rewrite (lockstep_plain _ (out_cfg g (sc_var (c_script c))) true _ E), lockstep_inline_ok. repeat split.
     - repeat split. }
   destruct (fst (ensure (s_att st) AdvNone)); apply K.
 Qed.
@@ -614,7 +643,7 @@ Qed.
 (* ---------- the decidable form of the property, on the model ---------------------- *)
 Lemma wframe_eqb_refl f : wframe_eqb f f = true.
 Proof.
-  destruct f as [u s [[o l]|]| |]; cbn [wframe_eqb opt_eqb]; rewrite ?N.eqb_refl, ?Z.eqb_refl, ?beqb_refl; try reflexivity.
+  destruct f as [a u s [[o l]|]| |]; cbn [wframe_eqb opt_eqb]; rewrite ?N.eqb_refl, ?Z.eqb_refl, ?beqb_refl; try reflexivity.
   unfold pair_eqb. cbn [fst snd]. now rewrite !N.eqb_refl.
 Qed.
 Lemma frames_eqb_refl fs : list_eqb wframe_eqb fs fs = true.
@@ -628,11 +657,14 @@ Proof.
   destruct (t_act _); [cbn [forallb no_ptr_frame]; apply IH|destruct ex; reflexivity|reflexivity].
 Qed.
 
+Lemma retag_noptr v : forall fs, forallb no_ptr_frame (retag v fs) = forallb no_ptr_frame fs.
+Proof. unfold retag. induction fs as [|f fs IH]; [reflexivity|]. cbn [map forallb]. rewrite IH. destruct f as [a u s [p|]| |]; reflexivity. Qed.
+
 Lemma plain_answer_shape c :
   Nat.eqb (length (plain_answer c)) 1 = true /\ forallb (forallb no_ptr_frame) (plain_answer c) = true.
 Proof.
   unfold plain_answer. destruct (c_method c); try destruct (sc_fail (c_script c)); split; try reflexivity;
-    cbn [forallb]; rewrite plain_frames_noptr; reflexivity.
+    cbn [forallb]; rewrite retag_noptr, plain_frames_noptr; reflexivity.
 Qed.
 
 Lemma client_put_sent g w rows t :
@@ -809,15 +841,15 @@ Proof.
         destruct (sc_fail (c_script c)); [reflexivity|]. cbn [a_resp current v_input_refuse].
         subst pi. cbn [is_stream fst snd].
         rewrite (first_unresolvable_sfirst g _ (c_items c) (snd rq) (req_ptrs rs ++ s_own st) 0).
-        pose proof (lockstep_reach g (sn && (has_name (c_adv c) || is_ptr_sent rs))
+        pose proof (lockstep_reach (out_cfg g (sc_var (c_script c))) (sn && (has_name (c_adv c) || is_ptr_sent rs))
                       (fst (fst (put_items g MExch (c_items c) (snd rq) (req_ptrs rs ++ s_own st)))) (sc_turns (c_script c))) as LR.
         rewrite put_items_content in LR.
-        match goal with |- context [lockstep true g true ?en ?tu ?it ?st0] => specialize (LR st0) end.
+        match goal with |- context [lockstep true ?g0 true ?en ?tu ?it ?st0] => specialize (LR st0) end.
         destruct (sfirst _ _) as [k|]; cbn [option_map].
         + rewrite Nat.add_0_r. destruct (emits_before k (sc_turns (c_script c))).
-          * rewrite LR. apply frames_eqb_refl.
-          * cbn [view map]. rewrite LR. apply resp_eqb_refl.
-        + cbn [view map]. rewrite LR. apply resp_eqb_refl.
+          * rewrite view_retag, LR, retag_app, retag_firstn. apply frames_eqb_refl.
+          * unfold view. cbn [map]. rewrite view_retag, LR. apply resp_eqb_refl.
+        + unfold view. cbn [map]. rewrite view_retag, LR. apply resp_eqb_refl.
       - apply V. unfold serve. rewrite NRF, M. reflexivity. }
     destruct rs as [|off|] eqn:RS; cbn [is_ptr_sent andb] in *.
     + apply K. now left.
@@ -897,13 +929,13 @@ Proof.
           else
             let n := sc_n (c_script c) in
             let ft := ship g engaged true n (Z.of_N n * c_x c)%Z (lookup_sz n (g_szb g)) t' in
-            {| a_resp := [[fst ft]]; a_tab := snd ft; a_own := own'; a_alive := true; a_bad := false |}
+            {| a_resp := [[set_var blob_schema (fst ft)]]; a_tab := snd ft; a_own := own'; a_alive := true; a_bad := false |}
       | MProd | MExch =>
           if sc_fail (c_script c) then err exc_value_error
           else
             let exchange := match c_method c with MExch => true | _ => false end in
-            let r := lockstep (v_input_refuse v) g exchange engaged (sc_turns (c_script c)) items {| l_tab := t'; l_own := own' |} in
-            {| a_resp := [fst (fst r)]; a_tab := l_tab (snd (fst r)); a_own := l_own (snd (fst r)); a_alive := true; a_bad := snd r |}
+            let r := lockstep (v_input_refuse v) (out_cfg g (sc_var (c_script c))) exchange engaged (sc_turns (c_script c)) items {| l_tab := t'; l_own := own' |} in
+            {| a_resp := [retag (sc_var (c_script c)) (fst (fst r))]; a_tab := l_tab (snd (fst r)); a_own := l_own (snd (fst r)); a_alive := true; a_bad := snd r |}
       end)) own).
   { intros t' own' I engaged. cbv zeta.
     destruct (c_method c);
@@ -1087,12 +1119,6 @@ Qed.
 Lemma err_not_io k : beqb (err_exc k) exc_io_error = false.
 Proof. destruct k; reflexivity. Qed.
 
-Lemma ship_data g en ne u s z t : exists p, fst (ship g en ne u s z t) = WData u s p.
-Proof.
-  unfold ship. destruct (g_size g); [|now exists None].
-  destruct (en && ne && negb (z_buf z <? g_gate g)%Z); [|now exists None].
-  destruct (write_slot n z t) as [[p|] t']; [now exists (Some p)|now exists None].
-Qed.
 
 (* current code, exchange: the loop frees exactly the slots of the inputs it got to -
    one per answer, plus the one whose turn failed - whatever the turn then did *)
@@ -1181,13 +1207,13 @@ Proof.
           else
             let n := sc_n (c_script c) in
             let ft := ship g engaged true n (Z.of_N n * c_x c)%Z (lookup_sz n (g_szb g)) t' in
-            {| a_resp := [[fst ft]]; a_tab := snd ft; a_own := own'; a_alive := true; a_bad := false |}
+            {| a_resp := [[set_var blob_schema (fst ft)]]; a_tab := snd ft; a_own := own'; a_alive := true; a_bad := false |}
       | MProd | MExch =>
           if sc_fail (c_script c) then err exc_value_error
           else
             let exchange := match c_method c with MExch => true | _ => false end in
-            let r := lockstep (v_input_refuse current) g exchange engaged (sc_turns (c_script c)) (fst (fst pi)) {| l_tab := t'; l_own := own' |} in
-            {| a_resp := [fst (fst r)]; a_tab := l_tab (snd (fst r)); a_own := l_own (snd (fst r)); a_alive := true; a_bad := snd r |}
+            let r := lockstep (v_input_refuse current) (out_cfg g (sc_var (c_script c))) exchange engaged (sc_turns (c_script c)) (fst (fst pi)) {| l_tab := t'; l_own := own' |} in
+            {| a_resp := [retag (sc_var (c_script c)) (fst (fst r))]; a_tab := l_tab (snd (fst r)); a_own := l_own (snd (fst r)); a_alive := true; a_bad := snd r |}
       end))
     = (length (s_own st) +
        match c_method c with
@@ -1200,13 +1226,13 @@ Proof.
           else
             let n := sc_n (c_script c) in
             let ft := ship g engaged true n (Z.of_N n * c_x c)%Z (lookup_sz n (g_szb g)) t' in
-            {| a_resp := [[fst ft]]; a_tab := snd ft; a_own := own'; a_alive := true; a_bad := false |}
+            {| a_resp := [[set_var blob_schema (fst ft)]]; a_tab := snd ft; a_own := own'; a_alive := true; a_bad := false |}
       | MProd | MExch =>
           if sc_fail (c_script c) then err exc_value_error
           else
             let exchange := match c_method c with MExch => true | _ => false end in
-            let r := lockstep (v_input_refuse current) g exchange engaged (sc_turns (c_script c)) (fst (fst pi)) {| l_tab := t'; l_own := own' |} in
-            {| a_resp := [fst (fst r)]; a_tab := l_tab (snd (fst r)); a_own := l_own (snd (fst r)); a_alive := true; a_bad := snd r |}
+            let r := lockstep (v_input_refuse current) (out_cfg g (sc_var (c_script c))) exchange engaged (sc_turns (c_script c)) (fst (fst pi)) {| l_tab := t'; l_own := own' |} in
+            {| a_resp := [retag (sc_var (c_script c)) (fst (fst r))]; a_tab := l_tab (snd (fst r)); a_own := l_own (snd (fst r)); a_alive := true; a_bad := snd r |}
       end) with
                        | [fs] => count_true (skipn (processed fs) (slots_of (fst (fst pi))))
                        | _ => count_true (slots_of (fst (fst pi)))
@@ -1222,8 +1248,8 @@ Proof.
       subst pi. cbn [is_stream fst snd] in *. rewrite put_items_nonexch by discriminate.
       rewrite lockstep_inline_own. cbn [l_own]. rewrite put_items_nonexch in L0 by discriminate. exact L0.
     - destruct (sc_fail (c_script c)); [exact L0|]. cbn [a_own a_resp current v_input_refuse].
-      pose proof (lockstep_exch_len g engaged (fst (fst pi)) (sc_turns (c_script c)) {| l_tab := t'; l_own := own' |} (s_own st) P) as LL.
-      cbv zeta in LL. rewrite LL, slots_skipn, count_slots. lia.
+      pose proof (lockstep_exch_len (out_cfg g (sc_var (c_script c))) engaged (fst (fst pi)) (sc_turns (c_script c)) {| l_tab := t'; l_own := own' |} (s_own st) P) as LL.
+      cbv zeta in LL. rewrite LL, processed_retag, slots_skipn, count_slots. lia.
     - exact L0. }
   unfold serve.
   destruct rs as [|off|] eqn:RS; cbn [is_ptr_sent andb req_ptrs app] in *.
@@ -1355,20 +1381,20 @@ Definition sz_int : list (N * sz) :=
 Definition sz_blob : list (N * sz) := [(50, {| z_buf := 59; z_est := 4155; z_total := 352 |})].
 Definition canary : call :=
   {| c_method := MBlob; c_adv := AdvNone; c_wish := WInline; c_x := 9;
-     c_script := {| sc_fail := false; sc_n := 50; sc_turns := [] |}; c_items := []; c_release_now := true |}.
+     c_script := {| sc_fail := false; sc_var := 0; sc_n := 50; sc_turns := [] |}; c_items := []; c_release_now := true |}.
 Definition emit (rows : N) (v : Z) : turn := {| t_rows := rows; t_value := v; t_act := AEmit |}.
 
 (* before 6a8fa9d: a pointer request for a stream method on a connection without a segment *)
 Definition witness_drain : input :=
   {| i_data := 16384; i_gate := 48; i_szi := sz_int; i_szb := sz_blob;
      i_calls := [ {| c_method := MExch; c_adv := AdvNone; c_wish := WPtr; c_x := 5;
-                     c_script := {| sc_fail := false; sc_n := 0; sc_turns := [emit 8 1] |};
+                     c_script := {| sc_fail := false; sc_var := 0; sc_n := 0; sc_turns := [emit 8 1] |};
                      c_items := [ {| it_wish := WInline; it_rows := 2; it_val := 1 |} ]; c_release_now := true |};
                   canary ] |}.
 Definition witness_drain_empty : input :=
   {| i_data := 16384; i_gate := 48; i_szi := sz_int; i_szb := sz_blob;
      i_calls := [ {| c_method := MProd; c_adv := AdvNone; c_wish := WPtr; c_x := 5;
-                     c_script := {| sc_fail := false; sc_n := 0; sc_turns := [] |};
+                     c_script := {| sc_fail := false; sc_var := 0; sc_n := 0; sc_turns := [] |};
                      c_items := []; c_release_now := true |};
                   canary ] |}.
 (* before 29847dc: exchange inputs as pointers on a connection that never advertised a segment *)
@@ -1376,7 +1402,7 @@ Definition witness_input : input :=
   {| i_data := 16384; i_gate := 48; i_szi := sz_int; i_szb := sz_blob;
      i_calls := [ canary;
                   {| c_method := MExch; c_adv := AdvNone; c_wish := WInline; c_x := 1;
-                     c_script := {| sc_fail := false; sc_n := 0; sc_turns := [emit 8 1; emit 2 2; emit 8 3] |};
+                     c_script := {| sc_fail := false; sc_var := 0; sc_n := 0; sc_turns := [emit 8 1; emit 2 2; emit 8 3] |};
                      c_items := [ {| it_wish := WPtr; it_rows := 8; it_val := 2 |}; {| it_wish := WInline; it_rows := 6; it_val := 1 |};
                                   {| it_wish := WPtr; it_rows := 2; it_val := 5 |} ]; c_release_now := true |};
                   canary ] |}.
@@ -1384,18 +1410,18 @@ Definition witness_input : input :=
 Lemma legacy_drain_refuted_l :
   spec_ok witness_drain (model_v legacy_drain witness_drain) = false
   /\ map b_resp (o_with (model_v legacy_drain witness_drain))
-     = [[[WExc exc_io_error]; [WExc ss_exc_no_method]]; [[WData 50 450 None]]]
+     = [[[WExc exc_io_error]; [WExc ss_exc_no_method]]; [[WData 50 50 450 None]]]
   /\ map b_resp (o_with (model_v legacy_drain witness_drain_empty)) = [[[WExc exc_io_error]]; []]
-  /\ map b_resp (o_with (model witness_drain)) = [[[WExc exc_io_error]]; [[WData 50 450 None]]].
+  /\ map b_resp (o_with (model witness_drain)) = [[[WExc exc_io_error]]; [[WData 50 50 450 None]]].
 Proof. vm_compute. repeat split. Qed.
 
 Lemma legacy_input_refuted_l :
   spec_ok witness_input (model_v legacy_input witness_input) = false
   /\ map b_resp (o_with (model_v legacy_input witness_input))
-     = [[[WData 50 450 None]]; [[WData 8 8 None; WData 2 16 None; WData 8 24 None]]; [[WData 50 450 None]]]
+     = [[[WData 50 50 450 None]]; [[WData 0 8 8 None; WData 0 2 16 None; WData 0 8 24 None]]; [[WData 50 50 450 None]]]
   /\ o_without (model_v legacy_input witness_input)
-     = [[[WData 50 450 None]]; [[WData 8 136 None; WData 2 16 None; WData 8 104 None]]; [[WData 50 450 None]]]
-  /\ map b_resp (o_with (model witness_input)) = [[[WData 50 450 None]]; [[WExc exc_io_error]]; [[WData 50 450 None]]].
+     = [[[WData 50 50 450 None]]; [[WData 0 8 136 None; WData 0 2 16 None; WData 0 8 104 None]]; [[WData 50 50 450 None]]]
+  /\ map b_resp (o_with (model witness_input)) = [[[WData 50 50 450 None]]; [[WExc exc_io_error]]; [[WData 50 50 450 None]]].
 Proof. vm_compute. repeat split. Qed.
 
 Lemma run_alive g : forall cs st, s_alive st = true -> s_alive (snd (run current g st cs)) = true.
@@ -1458,9 +1484,9 @@ Definition example_input : input :=
   {| i_data := 1000 + 4164; i_gate := 48; i_szi := sz_int;
      i_szb := [(50, {| z_buf := 59; z_est := 4155; z_total := 352 |}); (100, {| z_buf := 109; z_est := 4205; z_total := 400 |})];
      i_calls := [ {| c_method := MBlob; c_adv := AdvGood; c_wish := WPtr; c_x := 3;
-                     c_script := {| sc_fail := false; sc_n := 100; sc_turns := [] |}; c_items := []; c_release_now := false |};
+                     c_script := {| sc_fail := false; sc_var := 0; sc_n := 100; sc_turns := [] |}; c_items := []; c_release_now := false |};
                   {| c_method := MExch; c_adv := AdvNone; c_wish := WPtr; c_x := 1;
-                     c_script := {| sc_fail := false; sc_n := 0; sc_turns := [emit 8 1; emit 8 2] |};
+                     c_script := {| sc_fail := false; sc_var := 0; sc_n := 0; sc_turns := [emit 8 1; emit 8 2] |};
                      c_items := [ {| it_wish := WPtr; it_rows := 8; it_val := 2 |}; {| it_wish := WPtr; it_rows := 6; it_val := 1 |} ];
                      c_release_now := true |};
                   canary ] |}.
@@ -1468,9 +1494,9 @@ Lemma example_facts :
   let o := model example_input in
   map b_req_ptr (o_with o) = [true; true; false]
   /\ map b_items_ptr (o_with o) = [[]; [true; false]; []]      (* the second input no longer fits: sent inline *)
-  /\ map b_resp (o_with o) = [[[WData 100 300 (Some (65536, 400))]];
-                              [[WData 8 136 (Some (65936, 344)); WData 8 64 (Some (66280, 344))]];
-                              [[WData 50 450 None]]]
+  /\ map b_resp (o_with o) = [[[WData 50 100 300 (Some (65536, 400))]];
+                              [[WData 0 8 136 (Some (65936, 344)); WData 0 8 64 (Some (66280, 344))]];
+                              [[WData 50 50 450 None]]]
   /\ o_after o = []
   /\ forallb (fun ob => negb (snd ob)) (fst (run current (cfg_of example_input) init (i_calls example_input))) = true.
 Proof. vm_compute. repeat split. Qed.
